@@ -26,7 +26,7 @@ DEFAULT_PROFILE = dict(
     subscript_whole_array_results=True, raise_=True, nested_calls=True,
     persistent_arrays=True, name_pool="plain", zero_trip=True, negative_consts=True,
     dead_code=True, cond_in_call_args=True, bare_power=True, ne_operator=True,
-    pow_of_pow=True, loop_bound_vars=True, fresh_names=False, lookups=False, complex_vars=False, assign_all_state=False, time_advance=True, force_phases=None, extra_kinds=(), zero_arg_calls=True, builtin_set=None, yield_uvec_only=False, matmul_only=False, yield_call_free=False, minmax_loop_counter=True, builtin_kwargs=True, uvfn_boost=False, kw_reverse=True, triangular=True, recall=True, int_reassign=True, acc_loops=True, guarded_partial=True, split_calls=True, dt_change=True, surfaces=True, loop_vars=None, float_int_consts=True, reuse_ids=False,
+    pow_of_pow=True, loop_bound_vars=True, fresh_names=False, lookups=False, complex_vars=False, assign_all_state=False, time_advance=True, force_phases=None, extra_kinds=(), zero_arg_calls=True, builtin_set=None, yield_uvec_only=False, matmul_only=False, yield_call_free=False, minmax_loop_counter=True, builtin_kwargs=True, uvfn_boost=False, kw_reverse=True, triangular=True, recall=True, int_reassign=True, acc_loops=True, guarded_partial=True, split_calls=True, dt_change=True, surfaces=True, loop_vars=None, float_int_consts=True, reuse_ids=False, call_in_bounds=False,
     real_temps=None, uvec_temps=None, arr_temps=None, flag_temps=None, int_temps=None,
 )
 
@@ -579,6 +579,14 @@ class Gen:
 
     def bound_tree(self, v):
         """A loop bound with value v: an integer variable holding it (or one more) when there is one."""
+        if self.p["call_in_bounds"] and self.p["calls"] and self.chance(20):
+            # the bound is the result of a user function (evaluated before any counter is set)
+            self.features.add("call_in_bound")
+            inner = C(v)
+            for nme in self.names_of(INT):
+                if self.ints[nme] == v:
+                    inner = V(nme)
+            return ["call", "<func>cnt", [inner], {}]
         if self.p["loop_bound_vars"]:
             for nme in self.names_of(INT):
                 if self.ints[nme] == v and self.chance(60):
